@@ -1,9 +1,12 @@
+mod bb;
 mod conc;
 mod core;
 mod gen;
 mod img;
 mod io;
 mod json;
+#[cfg(feature = "hook-h5")]
+mod lb;
 mod lock;
 mod misc;
 mod model;
@@ -282,6 +285,9 @@ fn main() {
         Some("trace") => trace::cmd_trace(&kv),
         Some("rbtrace") => rbtrace::cmd_rbtrace(&kv),
         Some("walimg") => walimg::cmd_walimg(&kv),
+        Some("bb") => bb::cmd_bb(&kv),
+        #[cfg(feature = "hook-h5")]
+        Some("lb") => lb::cmd_lb(&kv),
         Some("lockchild") => lock::lockchild_main(&pos[1], &pos[2], &pos[3], &pos[4], &pos[5]),
         Some("iochild") => io::child_main(&pos[1], &pos[2]),
         _ => {
